@@ -1,6 +1,7 @@
 #![allow(dead_code)]
 pub mod arc;
 pub mod engine;
+pub mod fuzzdec;
 pub mod gen;
 pub mod glue;
 pub mod mesh;
